@@ -470,4 +470,80 @@ func FuzzJSONCheck(f *testing.F) {
 	})
 }
 
+// ---------------------------------------------------------------------------------------
+// deep nesting: RFC 8259 sets no limit, and neither does the statement ("exactly one well-formed
+// JSON value"). The text is built here (a reader with a limit of its own - encoding/json stops at
+// 10000 levels - is no oracle for it): valid by construction, or cut by its last closers.
+
+const chkDeep = "deep-nesting"
+
+type DeepCase struct {
+	Depth   int    `json:"depth"`
+	Objects int    `json:"every_nth_level_is_an_object"` // 0: arrays only
+	Inner   string `json:"innermost"`
+	Missing int    `json:"closers_missing"`
+	Allow   bool   `json:"allow_trailing"`
+}
+
+func (c DeepCase) text() []byte {
+	var open, closers []byte
+	for i := 0; i < c.Depth; i++ {
+		if c.Objects > 0 && i%c.Objects == c.Objects-1 {
+			open = append(open, `{"k":`...)
+			closers = append(closers, '}')
+		} else {
+			open = append(open, '[')
+			closers = append(closers, ']')
+		}
+	}
+	out := append(open, c.Inner...)
+	for i := len(closers) - 1; i >= c.Missing; i-- {
+		out = append(out, closers[i])
+	}
+	return out
+}
+
+func init() {
+	run.RegisterReplay(chkDeep, func(t run.TB, raw stdjson.RawMessage) {
+		var c DeepCase
+		if err := stdjson.Unmarshal(raw, &c); err != nil {
+			t.Fatalf("bad case: %v", err)
+		}
+		checkDeep(t, c)
+	})
+}
+
+func checkDeep(t run.TB, c DeepCase) {
+	in := c.text()
+	err, p := libCheck(in, c.Allow)
+	if p != nil {
+		run.Fail(t, chkDeep, c, "Document.Check panicked on a text nested %d levels deep: %v", c.Depth, p)
+	}
+	if want := c.Missing == 0; (err == nil) != want {
+		run.Fail(t, chkDeep, c, "a text nested %d levels deep with %d closing brackets missing: library accepts=%v (err=%v)", c.Depth, c.Missing, err == nil, err)
+	}
+}
+
+func TestDeepNesting(t *testing.T) {
+	run.SkipIfReplaying(t)
+	defer run.Done(t, chkDeep)
+	rapid.Check(t, func(t *rapid.T) {
+		c := DeepCase{
+			Depth:   rapid.SampledFrom([]int{50, 500, 1000, 2499, 2500, 2501, 4999, 5000, 5001, 9999, 10000, 10001, 16384, 32768, 65537}).Draw(t, "depth") + rapid.IntRange(-2, 2).Draw(t, "jitter"),
+			Objects: rapid.SampledFrom([]int{0, 0, 1, 2, 3}).Draw(t, "objects"),
+			Inner:   rapid.SampledFrom([]string{"", "1", "\"s\"", "null", "-0.5e1", "true"}).Draw(t, "inner"),
+			Allow:   rapid.Bool().Draw(t, "allow"),
+		}
+		if rapid.IntRange(0, 3).Draw(t, "cut") == 0 {
+			c.Missing = rapid.IntRange(1, 3).Draw(t, "missing")
+		}
+		if c.Inner == "" && c.Objects > 0 && (c.Depth-1)%c.Objects == c.Objects-1 {
+			c.Inner = "0" // the innermost level is an object: its key needs a value
+		}
+		checkDeep(t, c)
+		run.Eval(chkDeep, true, fmt.Sprint(c))
+		run.Label("deep-nesting")
+	})
+}
+
 func TestReplay(t *testing.T) { run.TestReplay(t) }
